@@ -1256,7 +1256,8 @@ class Function(Ring):
     size = property(get_size)
 
     def get_flat(self):
-        return self.x.flat
+        # a traced read (returning self.x.flat would leak the untraced value into the graph)
+        return self.reshape((self.size,))
     flat = property(get_flat)
 
 
